@@ -41,17 +41,32 @@ func solveAll(obs []*Oblig, sv *Solver, workers int) []ObligResult {
 		go func() {
 			defer wg.Done()
 			for i := range ch {
-				q := obs[i].query(nil, true)
-				mu.Lock()
-				r, ok := cache[q]
-				mu.Unlock()
-				if !ok {
-					r = sv.solve(q, solverOrder(q))
+				// a conjunctive goal is proved conjunct by conjunct (smaller, more stable queries)
+				parts := splitGoal(obs[i].Goal)
+				var agg SolveResult
+				agg.Status = "unsat"
+				for _, g := range parts {
+					o2 := *obs[i]
+					o2.Goal = g
+					q := o2.query(nil, true)
 					mu.Lock()
-					cache[q] = r
+					r, ok := cache[q]
 					mu.Unlock()
+					if !ok {
+						r = sv.solve(q, solverOrder(q))
+						mu.Lock()
+						cache[q] = r
+						mu.Unlock()
+					}
+					agg.Time += r.Time
+					agg.Tried = append(agg.Tried, r.Tried...)
+					if r.Status != "unsat" {
+						agg.Status, agg.Solver, agg.Output, agg.File = r.Status, r.Solver, r.Output, r.File
+						break
+					}
+					agg.Solver, agg.File = r.Solver, r.File
 				}
-				out[i] = ObligResult{obs[i], r}
+				out[i] = ObligResult{obs[i], agg}
 			}
 		}()
 	}
@@ -212,4 +227,44 @@ func firstLines(s string, n int) string {
 
 func indent(s, p string) string {
 	return p + strings.ReplaceAll(s, "\n", "\n"+p)
+}
+
+// splitGoal splits (and A B), (=> P (and A B)) into separate goals.
+func splitGoal(goal string) []string {
+	xs, err := parseSx(goal)
+	if err != nil || len(xs) != 1 {
+		return []string{goal}
+	}
+	var rec func(x *sx, depth int) []*sx
+	rec = func(x *sx, depth int) []*sx {
+		if !x.isList || len(x.list) == 0 || x.list[0].isList || depth > 4 {
+			return []*sx{x}
+		}
+		switch x.list[0].atom {
+		case "and":
+			var out []*sx
+			for _, c := range x.list[1:] {
+				out = append(out, rec(c, depth+1)...)
+			}
+			return out
+		case "=>":
+			if len(x.list) == 3 {
+				var out []*sx
+				for _, c := range rec(x.list[2], depth+1) {
+					out = append(out, &sx{isList: true, list: []*sx{{atom: "=>"}, x.list[1], c}})
+				}
+				return out
+			}
+		}
+		return []*sx{x}
+	}
+	parts := rec(xs[0], 0)
+	if len(parts) <= 1 || len(parts) > 12 {
+		return []string{goal}
+	}
+	var out []string
+	for _, p := range parts {
+		out = append(out, p.String())
+	}
+	return out
 }
